@@ -66,9 +66,12 @@ func resample(ls orb.LineString, dists []float64, totalDistance float64, totalPo
 		currentSegDistance := dists[i]
 		nextDistance := dist + currentSegDistance
 
-		for currentDistance <= nextDistance {
+		for currentDistance <= nextDistance && step < totalPoints {
 			// need to add a point
-			percent := (currentDistance - dist) / currentSegDistance
+			percent := 0.0
+			if currentSegDistance > 0 {
+				percent = (currentDistance - dist) / currentSegDistance
+			}
 			points = append(points, orb.Point{
 				currentSeg[0][0] + percent*(currentSeg[1][0]-currentSeg[0][0]),
 				currentSeg[0][1] + percent*(currentSeg[1][1]-currentSeg[0][1]),
